@@ -31,6 +31,7 @@ def generate(seed, stratum, tier):
   rng = random.Random(seed)
   objs = aw.default_objects(1, spied=rng.random() < 0.8)
   nsrc = rng.randrange(1, 5)
+  share = rng.random() < 0.33
   c0 = [['start', 0]]
   maxp = 0.1
   endless = False
@@ -44,7 +45,9 @@ def generate(seed, stratum, tier):
       minpe = min(minpe, p)
     if slot and rng.random() < 0.5:
       c0.append(['sleep', rng.choice([0.05, 0.1, 0.3, 1, 2.5])])
-    c0.append(['timed', 0, rng.choice(['fifo', 'lifo']), 'T%d' % slot, p, times, rng.choice([True, False, None]), slot])
+    # in a third of the runs sources share signal names (two heartbeats of the same kind): each keeps its own calendar
+    sig = 'T%d' % (slot if not share else rng.randrange(2))
+    c0.append(['timed', 0, rng.choice(['fifo', 'lifo']), sig, p, times, rng.choice([True, False, None]), slot])
   if rng.random() < 0.25:
     # sources armed before the object is started: the start comes a little later
     c0.remove(['start', 0])
